@@ -158,7 +158,10 @@ def _clauses(cc, backend):
         dropped_valid = sorted(set(expect_pos) - set(p for p in got_pos if p != "?"))
         kept_invalid = sorted(set(p for p in got_pos if p != "?") - set(expect_pos))
         why = sorted({c[2] for c in ref.cells if c[6] in kept_invalid})
-        if backend == "polars" and why == ["multiple_fields_uniqueness"] and not dropped_valid:
+        plain_why = list(why)
+        # (the component kind is part of the key for index constraints: a check on the index and a check on a column must never share one)
+        why = sorted({(c[0] + "." if c[0] in ("Index", "MultiIndex") else "") + c[2] for c in ref.cells if c[6] in kept_invalid})
+        if backend == "polars" and plain_why == ["multiple_fields_uniqueness"] and not dropped_valid:
             # structural finding: the polars joint-uniqueness error carries no row mask
             out.append(("exact_rows", "@polars:joint_uniqueness_rows_not_dropped", f"expected={expect_pos} got={got_pos}"))
             return out, label, nontrivial
